@@ -6450,9 +6450,6 @@ impl Nudge {
         increment: NoUnits128,
         mode: RoundMode,
     ) -> Result<Nudge, Error> {
-        #[cfg(not(feature = "std"))]
-        use crate::util::libm::Float;
-
         assert!(smallest >= Unit::Day);
         let sign = balanced.get_sign_ranged();
         let units = if smallest == Unit::Week {
@@ -6464,7 +6461,8 @@ impl Nudge {
         } else {
             balanced.get_units_ranged(smallest)
         };
-        let truncated = increment * units.div_ceil(increment);
+        let quotient = units.div_ceil(increment);
+        let truncated = increment * quotient;
         let span = balanced
             .without_lower(smallest)
             .try_units_ranged(smallest, truncated.rinto())
@@ -6482,10 +6480,6 @@ impl Nudge {
                 .try_checked_mul("signed increment", sign)?,
         )?;
 
-        // FIXME: This is brutal. This is the only non-optional floating point
-        // used so far in Jiff. We do expose floating point for things like
-        // `Span::total`, but that's optional and not a core part of Jiff's
-        // functionality. This is in the core part of Jiff's span rounding...
         if relative1 == relative0 {
             return Err(err!(
                 "cannot round to {unit} because a {singular} relative to the \
@@ -6494,19 +6488,39 @@ impl Nudge {
                 singular = smallest.singular(),
             ));
         }
-        let denom = (relative1 - relative0).get() as f64;
-        let numer = (relative_end.to_nanosecond() - relative0).get() as f64;
-        let exact = (truncated.get() as f64)
-            + (numer / denom) * (sign.get() as f64) * (increment.get() as f64);
-        let rounded = mode.round_float(exact, increment);
-        // N.B. `f64::signum` never returns zero (it maps `0.0` to `1.0`), so
-        // an exact result needs to be ruled out explicitly.
-        let diff = (rounded.get() as f64) - exact;
-        let grew_big_unit =
-            diff != 0.0 && diff.signum() == (sign.get() as f64);
+        // The exact number of units is `truncated` plus the fraction of the
+        // way that `relative_end` is between `relative0` and `relative1`:
+        //
+        //     truncated + (numer / denom) * sign * increment
+        //
+        // We don't compute that number though, since it generally isn't an
+        // integer. (And using floating point for it picks the wrong neighbor
+        // for spans that are within a few nanoseconds of one, since the
+        // number of nanoseconds in a few months doesn't fit into the
+        // mantissa of a `f64`.) Instead, we scale it by `|denom| / increment`
+        // and round it to the nearest multiple of `|denom|`, which is the
+        // same thing but can be done with exact integer arithmetic.
+        let denom = (relative1 - relative0).get();
+        let numer = (relative_end.to_nanosecond() - relative0).get();
+        let sign128 = i128::from(sign.get());
+        let scale = denom.abs();
+        let exact = (i128::from(quotient.get()) * scale)
+            + (numer * denom.signum() * sign128);
+        let rounded_scaled = mode
+            .round(
+                NoUnits128::new_unchecked(exact),
+                NoUnits128::new_unchecked(scale),
+            )
+            .get();
+        let diff = rounded_scaled - exact;
+        let grew_big_unit = diff != 0 && diff.signum() == sign128;
+        let rounded = NoUnits::try_new128(
+            "rounded units",
+            (rounded_scaled / scale) * increment.get(),
+        )?;
 
         let span = span
-            .try_units_ranged(smallest, rounded.rinto())
+            .try_units_ranged(smallest, rounded)
             .with_context(|| {
                 err!(
                     "failed to set {unit} to {truncated} on span {span}",
